@@ -92,6 +92,9 @@ def run(drv, case):
     # the no-fire answers must be the reference answers (same count; terms are compared by C01, here the count and the text form)
     if len(full) != len(ref[0]):
         raise Violation('wrong-answers-without-timeout', '%s: solve_all returns %d answers, the query has %d' % (desc, len(full), len(ref[0])))
+    # "finishes well within the limit is never reported as timed out" also covers the next query: a timer that this
+    # finished run left running (not cancelled) may fire during it
+    leaked = m.timer is not None and m.timer.get('armed')
     # choose the firing point: any observation of the run, or never
     dense = case.get('dense', 40)
     points = list(range(min(nobs, dense))) + list(range(dense, nobs, 3)) + [-1]
@@ -99,7 +102,12 @@ def run(drv, case):
     n = points[k]
     q = drv.query([drv.term(t) for t in query[1]])
     node = drv.base(q, kb)
-    drv.stop_at(n)
+    if leaked and n < 0:
+        # this query's own timer never fires, but the one left over from the previous (finished) query does
+        drv.stop_at(1)
+        tags.append('leaked-timer-fires')
+    else:
+        drv.stop_at(n)
     fired = n >= 0
     try:
         if case['driver'] == 'solve_all':
